@@ -63,17 +63,30 @@ CLAIMS = {
          "combinations, keys of length 0/31/32/33, checkfiles mixing good/stale/missing/malformed lines, LF/CRLF.",
          "Partial: clap argument handling, rayon pool set-up, process exit and the OS are not modelled.",
          "Coq proof on the model + binary-level correspondence"),
+ "C15": ("Coq theorems (Props/C15.v): the reference-implementation model (compress with in-place permute, ChunkState, the "
+         "54-entry CV stack with trailing-zeros merging, root_output_bytes) equals the specification output for every mode, "
+         "every update split and every output length (ref_refines; Ok = no panic incl. the stack bound); EVERY entry of "
+         "test_vectors.json (translated to Coq on each run: 35 lengths x 3 modes x 131 bytes, stated key/context/pattern) "
+         "equals the specification, proved inside the kernel by vm_compute; hence reference = spec = Rust model (C01). "
+         "Correspondence: reference_impl::Hasher driven with splits and output lengths vs the extracted model.",
+         "vm_compute is used for the test-vector equalities (a kernel conversion); reference constants translated from reference_impl.rs.",
+         "Coq proof (refinement by induction + in-kernel evaluation of all published vectors) + correspondence"),
  "C02": ("Coq theorems (Props/C02.v) about the Hasher model; correspondence on random histories, exhaustive short 2-splits, "
          "Write/update_reader, all modes, every forced SIMD level.",
-         "See Props/C02.v for exactly which statements are proved; update_rayon/mmap wrappers are C08/C11.",
+         "Proved: any update sequence over any number of instances with clone/reset/finalize/finalize_xof/count interleaved "
+         "refines one byte list per instance (history_refines), for every PlatformOK platform; CV-stack invariant (lazy "
+         "merging, popcount rule, capacity 55) by induction. update_rayon/mmap wrappers are C08/C11.",
          "Coq proof (stack invariant by induction over operations) + correspondence"),
  "C09": ("Coq theorems (Props/C09.v): helper formulas on all of u64 (translated source text), subtree/merge statements; "
          "correspondence on random decompositions, fixed groups, offsets up to 2^54-64 chunks, documented misuse panics.",
-         "See Props/C09.v for exactly which statements are proved.",
+         "Proved: subtree hashers at any chunk-aligned offset below 2^54 chunks = spec subtree CV (any update split); "
+         "every decomposition respecting left_subtree_len/max_subtree_len (inductive Decomp, any nesting) recombines to "
+         "the hash and root output; helper formulas on all of u64; documented misuse panics.",
          "Coq proof + translated formulas + correspondence"),
  "C10": ("Coq theorems (Props/C10.v): reset yields the constructor state of the same key/flags; clone independence in the "
          "multi-instance machine; correspondence on prefix/reset/suffix histories incl. hazmat offsets.",
-         "See Props/C10.v.",
+         "Proved: reset h = new_internal key flags for every reachable state at any hazmat offset; clone/reset inside "
+         "call histories (history_refines). Derived Clone is modelled as copying the record.",
          "Coq proof + correspondence"),
 }
 NOT_YET = "model/proof under construction in this development; not claimed until its check exists"
